@@ -493,4 +493,6 @@ def units(tier):
         for u in (c02.IntScalar(T), c02.ScalarPrefix(T)):
             u.prop, u.name = 'C04', 'C04.carrier.' + u.name.split('.', 1)[1]
             carriers.append(u)
-    return [PositionSend(), PositionMonotone(), PositionAnyWord(), SectionPos(), BlockRecord(), ou] + carriers
+    # "the packing of the CONNECTION'S protocol": a position goes out under the context write_packet stamps on the packet
+    from .deps import dependency_units
+    return [PositionSend(), PositionMonotone(), PositionAnyWord(), SectionPos(), BlockRecord(), ou] + carriers + dependency_units('C04')
